@@ -47,7 +47,11 @@ Flows == <<
   \*   a literal body, which must arrive unchanged)
   [a |-> RDef(PreM("next", "users"), Use("pre", "a", "hurl"), "json", FALSE),
    b |-> RDef(NoPre, Use("post", "a", "hbody"), "none", TRUE),
-   c |-> RDef(PreM("last", "items"), Use("pre", "c", "hbody"), "none", FALSE)]
+   c |-> RDef(PreM("last", "items"), Use("pre", "c", "hbody"), "none", FALSE)],
+  \* 9 a captured JSON NUMBER (a 7-digit id) flows into body / header / (through a preprocessor) the URI
+  [a |-> RDef(NoPre, NoUse, "jsonnum", FALSE),
+   b |-> RDef(NoPre, Use("post", "a", "body"), "jsonnum", TRUE),
+   c |-> RDef(PreM("from", "b"), Use("pre", "c", "uri"), "none", FALSE)]
 >>
 
 NameSeqs == << <<"a">>, <<"a", "b">>, <<"b", "a">>, <<"a", "a">>, <<"a", "b", "c">>, <<"a", "b", "a">>, <<"c", "b", "a">> >>
@@ -69,7 +73,9 @@ StepsOf(shs) == LET RECURSIVE S(_)
 
 \* target scripts: all OK / transport failure at arrival k / status 418 at arrival k
 Script(kind, at) == [kind |-> kind, at |-> at]
+\* (quick: failure positions 1..5 only)
 ScriptsFor(steps) == {Script("ok", 0)} \cup {Script(kd, k) : kd \in {"transport", "status"}, k \in 1..(steps + 1)}
+ScriptsLvl(steps, lvl) == IF lvl = 0 /\ steps > 4 THEN ScriptsFor(4) ELSE ScriptsFor(steps)
 ScriptCode(sc) == IF sc.kind = "ok" THEN 0 ELSE (IF sc.kind = "transport" THEN 0 ELSE 20) + sc.at
 
 \* lvl 0 (quick): all shapes for one listed request, 4 / 2 representative shapes for lists of 2 / 3
@@ -96,7 +102,7 @@ FlowCase(f, nsi, shs, sc) ==
 FlowInit(lvl) ==
     \E f \in 1..Len(Flows), nsi \in 1..Len(NameSeqs) :
       \E shs \in ShapeSeqs(Len(NameSeqs[nsi]), lvl) :
-        \E sc \in ScriptsFor(StepsOf(shs)) :
+        \E sc \in ScriptsLvl(StepsOf(shs), lvl) :
           st = InitSt(FlowCase(f, nsi, shs, sc))
 
 -----------------------------------------------------------------------------
